@@ -14,13 +14,16 @@
   What is *not* proven (recorded assumptions, always explicit hypotheses, never axioms):
   * SHA-256 does not collide on the two inputs at hand (`covered_change_changes_*_hash`);
   * canonical-JSON encoding is injective on the two objects at hand (`EncInj`, hypothesis of the
-    `covered_change_changes_*_preimage` theorems; it is C01's `encode` injectivity).
+    older `covered_change_changes_*_preimage` theorems). For canonical events this is C01's
+    `encode_injective`, and the `*_canonical` corollaries below have no such hypothesis left.
 -/
 import RumaModel.Lemmas.Hash
+import RumaModel.Lemmas.HashCanonical
 import RumaModel.Spec.EventSign
 import RumaModel.Generated.C05
 namespace Ruma.Props.C05
 open Ruma Ruma.Hash Ruma.Redact Ruma.Canonical Ruma.Spec.Redaction
+open Ruma.Spec.CanonicalJson (IsCanonical)
 open Ruma.Spec.Hash (without contentPreimage referencePreimage redacted maxPdu)
 
 /-! ### T1: the per-version tables reached through `RoomVersionId::rules()` -/
@@ -337,6 +340,116 @@ theorem covered_change_changes_reference_hash (sha256 : List Nat → List Nat)
   injection h1 with h1
   exact hpre (hnc h1.symm)
 
+/-! ### The same without `EncInj`: canonical events (C01's injectivity of `encode`) -/
+
+/-- `EncInj` holds for any two canonical objects: this is C01's `encode_injective`. -/
+theorem encInj_of_canonical (a b : Obj) (ha : IsCanonical (.obj a)) (hb : IsCanonical (.obj b)) :
+    EncInj a b :=
+  encodeObj_injective a b ha hb
+
+/-- **Content hash, covered change, for canonical events** (a `CanonicalJsonObject` is one: keys
+ascending at every depth, integers in range): if two events differ at any top-level key other than
+`unsigned`, `signatures`, `hashes`, the bytes that are hashed differ. No hypothesis about the
+encoding is left: injectivity is C01's theorem. -/
+theorem covered_change_changes_preimage_canonical (o o' : Obj) (k : Str)
+    (hc : IsCanonical (.obj o)) (hc' : IsCanonical (.obj o'))
+    (hk : k ∉ [bs "unsigned", bs "signatures", bs "hashes"])
+    (hne : Obj.get o k ≠ Obj.get o' k) :
+    contentPreimage o ≠ contentPreimage o' :=
+  covered_change_changes_preimage o o' k hk hne
+    (encInj_of_canonical _ _ (isCanonical_without o _ hc) (isCanonical_without o' _ hc'))
+
+/-- The redacted form of a canonical event is canonical (so `EncInj` holds for the objects the
+reference hash encodes). -/
+theorem encInj_of_redacted (v : Nat) (e e' res res' : Obj)
+    (hc : IsCanonical (.obj e)) (hc' : IsCanonical (.obj e'))
+    (hred : redact (rulesOf v) e none = .ok res) (hred' : redact (rulesOf v) e' none = .ok res') :
+    EncInj (without res [bs "signatures", bs "unsigned"]) (without res' [bs "signatures", bs "unsigned"]) := by
+  obtain ⟨t, _, hres⟩ := redact_eq_spec v e res hc.1 hred
+  obtain ⟨t', _, hres'⟩ := redact_eq_spec v e' res' hc'.1 hred'
+  subst hres; subst hres'
+  exact encInj_of_canonical _ _ (isCanonical_without _ _ (redacted_isCanonical v t e hc))
+    (isCanonical_without _ _ (redacted_isCanonical v t' e' hc'))
+
+/-- **Reference hash, covered top-level change, for canonical events.** -/
+theorem covered_change_changes_reference_preimage_canonical (v : Nat) (e e' res res' : Obj) (ty ty' : Str)
+    (hc : IsCanonical (.obj e)) (hc' : IsCanonical (.obj e'))
+    (hred : redact (rulesOf v) e none = .ok res) (hred' : redact (rulesOf v) e' none = .ok res')
+    (hty : Obj.get e (bs "type") = some (.str ty)) (hty' : Obj.get e' (bs "type") = some (.str ty'))
+    (k : Str) (hkept : topKept v k = true) (hk1 : k ≠ bs "content") (hk2 : k ≠ bs "signatures")
+    (hk3 : k ≠ bs "unsigned")
+    (hne : Obj.get e k ≠ Obj.get e' k) :
+    referencePreimage v ty e ≠ referencePreimage v ty' e' :=
+  covered_change_changes_reference_preimage v e e' res res' ty ty' hc.1 hc'.1 hred hred' hty hty' k
+    hkept hk1 hk2 hk3 hne (encInj_of_redacted v e e' res res' hc hc' hred hred')
+
+/-- **Reference hash, covered content change, for canonical events** (every kept content key except
+the narrowed `third_party_invite` of a member event, which is the next theorem). -/
+theorem covered_content_change_changes_reference_preimage_canonical (v : Nat) (e e' res res' : Obj)
+    (ty : Str) (c c' : Obj) (hce : IsCanonical (.obj e)) (hce' : IsCanonical (.obj e'))
+    (hred : redact (rulesOf v) e none = .ok res) (hred' : redact (rulesOf v) e' none = .ok res')
+    (hty : Obj.get e (bs "type") = some (.str ty)) (hty' : Obj.get e' (bs "type") = some (.str ty))
+    (hc : Obj.get e (bs "content") = some (.obj c)) (hc' : Obj.get e' (bs "content") = some (.obj c'))
+    (k : Str) (hkept : contentKept v ty k = true)
+    (hn : ¬ (ty = bs "m.room.member" ∧ k = bs "third_party_invite"))
+    (hne : Obj.get c k ≠ Obj.get c' k) :
+    referencePreimage v ty e ≠ referencePreimage v ty e' :=
+  covered_content_change_changes_reference_preimage v e e' res res' ty c c' hce.1 hce'.1 hred hred'
+    hty hty' hc hc' k hkept hn hne (encInj_of_redacted v e e' res res' hce hce' hred hred')
+
+/-- **Reference hash, the excluded content key: `third_party_invite` of `m.room.member`.** Where the
+version keeps it (room version 11 onwards) only its `signed` member is covered: if the two events'
+`third_party_invite` objects differ in `signed` (changed, added or removed), the bytes that are hashed
+differ. (A change to any *other* member of `third_party_invite` is not covered — redaction drops it —
+which is why the previous theorem excludes this key.) -/
+theorem covered_tpi_signed_change_changes_reference_preimage (v : Nat) (e e' res res' : Obj)
+    (c c' t t' : Obj) (hce : IsCanonical (.obj e)) (hce' : IsCanonical (.obj e'))
+    (hred : redact (rulesOf v) e none = .ok res) (hred' : redact (rulesOf v) e' none = .ok res')
+    (hty : Obj.get e (bs "type") = some (.str (bs "m.room.member")))
+    (hty' : Obj.get e' (bs "type") = some (.str (bs "m.room.member")))
+    (hc : Obj.get e (bs "content") = some (.obj c)) (hc' : Obj.get e' (bs "content") = some (.obj c'))
+    (hkept : contentKept v (bs "m.room.member") (bs "third_party_invite") = true)
+    (ht : Obj.get c (bs "third_party_invite") = some (.obj t))
+    (ht' : Obj.get c' (bs "third_party_invite") = some (.obj t'))
+    (hne : Obj.get t (bs "signed") ≠ Obj.get t' (bs "signed")) :
+    referencePreimage v (bs "m.room.member") e ≠ referencePreimage v (bs "m.room.member") e' := by
+  have hinj := encInj_of_redacted v e e' res res' hce hce' hred hred'
+  obtain ⟨ty1, ht1, hres⟩ := redact_eq_spec v e res hce.1 hred
+  obtain ⟨ty2, ht2, hres'⟩ := redact_eq_spec v e' res' hce'.1 hred'
+  rw [hty] at ht1; rw [hty'] at ht2
+  injection ht1 with ht1; injection ht1 with ht1; subst ht1
+  injection ht2 with ht2; injection ht2 with ht2; subst ht2
+  intro heq
+  simp only [referencePreimage, ← hres, ← hres'] at heq
+  have := congrArg (fun x => Obj.get x (bs "content")) (hinj heq)
+  simp only [get_without] at this
+  have hcc : [bs "signatures", bs "unsigned"].contains (bs "content") = false := by decide
+  rw [hcc] at this
+  simp only [Bool.false_eq_true, if_false] at this
+  rw [Props.C04.redact_content_eq_spec v e res _ c hred hty hc,
+      Props.C04.redact_content_eq_spec v e' res' _ c' hred' hty' hc'] at this
+  injection this with this
+  injection this with this
+  have hsc : Obj.Sorted c := (isCanonical_of_get e _ _ hce hc).1
+  have hsc' : Obj.Sorted c' := (isCanonical_of_get e' _ _ hce' hc').1
+  have h2 := congrArg (fun x => Obj.get x (bs "third_party_invite")) this
+  simp only [get_redactedContent_sorted _ _ _ _ hsc, get_redactedContent_sorted _ _ _ _ hsc', ht, ht',
+    Option.bind_some, contentEntry, hkept, and_self, if_true] at h2
+  -- both sides: `if (filter signed).isEmpty then none else some (obj (filter signed))`
+  have hfe : t.filter (fun p => tpiKept p.1) = t'.filter (fun p => tpiKept p.1) := by
+    by_cases h1 : (t.filter (fun p => tpiKept p.1)).isEmpty = true <;>
+    by_cases h1' : (t'.filter (fun p => tpiKept p.1)).isEmpty = true
+    · rw [List.isEmpty_iff.mp h1, List.isEmpty_iff.mp h1']
+    · simp [h1, h1'] at h2
+    · simp [h1, h1'] at h2
+    · simp only [h1, h1'] at h2
+      simpa using h2
+  have hg := congrArg (fun x => Obj.get x (bs "signed")) hfe
+  simp only [get_filter (p := tpiKept)] at hg
+  have hk : tpiKept (bs "signed") = true := by decide
+  rw [hk] at hg
+  exact hne hg
+
 /-! ### Base64 facts -/
 
 /-- **Round trip, both alphabets**: decoding the unpadded encoding of any byte string gives the byte
@@ -368,6 +481,95 @@ theorem url_safe_output (x : List Nat) (hx : ∀ b ∈ x, b < 256) :
     exact this c hmem
   · intro hl a
     rw [b64_length, hl]
+
+/-! ### Event IDs (room version 3 onwards) -/
+
+/-- **The event ID is `$` + the reference hash.** For every format other than `V1`, `eventId` is the
+reference hash prefixed with `$` (byte 36), with the same errors. (This is how the model defines it —
+ruma has no function for this step, callers write `format!("${}", reference_hash(..)?)`; the tie to
+the code is the harness op `c05.eventid`, which does that with the real `reference_hash` and parses
+the result with the real `EventId` parser.) -/
+theorem event_id_of_reference_hash (sha256 : List Nat → List Nat) (r : Rules) (fmt : EventIdFormat)
+    (o : Obj) (hf : fmt ≠ .v1) :
+    eventId sha256 r fmt o = (referenceHash sha256 r fmt o).map (fun h => some (36 :: h)) := by
+  cases fmt with
+  | v1 => exact absurd rfl hf
+  | v2 => simp only [eventId]; cases referenceHash sha256 r .v2 o <;> rfl
+  | v3 => simp only [eventId]; cases referenceHash sha256 r .v3 o <;> rfl
+
+/-- **Event ID, spec form**: for every room version number `v ≥ 3` and every redactable sorted
+event, the event ID is `PduSize` when the canonical JSON of the spec's redacted event without
+`signatures`/`unsigned` exceeds 65 535 bytes, and otherwise the specification's `eventIdOf`: `$`
+followed by the unpadded base64 (standard alphabet in v3, URL-safe from v4) of the SHA-256 of exactly
+those bytes. In room versions 1 and 2 there is no hash-derived event ID. -/
+theorem event_id_def (sha256 : List Nat → List Nat) (v : Nat) (e res : Obj)
+    (hs : Obj.Sorted e) (hred : redact (rulesOf v) e none = .ok res) :
+    ∃ ty, Obj.get e (bs "type") = some (.str ty) ∧
+      eventId sha256 (rulesOf v) (specFormat v) e =
+        if v ≤ 2 then .ok none
+        else if (referencePreimage v ty e).length > maxPdu then .error .pduSize
+        else .ok (Spec.Hash.eventIdOf v (b64 (specAlphabet v) (sha256 (referencePreimage v ty e)))) := by
+  obtain ⟨ty, hty, href⟩ := reference_hash_def sha256 v e res hs hred
+  refine ⟨ty, hty, ?_⟩
+  by_cases h2 : v ≤ 2
+  · have hf : specFormat v = .v1 := by simp [specFormat, Spec.Hash.eventIdFormat, h2]
+    rw [hf, if_pos h2]
+    rfl
+  · have h1 : Spec.Hash.eventIdFormat v ≠ 1 := by
+      unfold Spec.Hash.eventIdFormat
+      rw [if_neg h2]
+      split <;> decide
+    have hf : specFormat v ≠ .v1 := by
+      unfold specFormat
+      rw [if_neg h1]
+      split <;> simp
+    rw [event_id_of_reference_hash sha256 _ _ e hf, href, if_neg h2]
+    split
+    · rfl
+    · simp only [Except.map, Spec.Hash.eventIdOf, if_neg h1]
+
+/-- **The event ID determines the digest** (it is injective in the reference hash): two event IDs
+formed with the same alphabet from byte strings are equal only if the digests are equal. -/
+theorem event_id_injective (a : Alphabet) (h h' : List Nat) (hb : ∀ b ∈ h, b < 256)
+    (hb' : ∀ b ∈ h', b < 256) (heq : 36 :: b64 a h = 36 :: b64 a h') : h = h' := by
+  injection heq with _ heq
+  have h1 := unb64_b64 a h hb
+  rw [heq, unb64_b64 a h' hb'] at h1
+  injection h1 with h1
+  exact h1.symm
+
+/-- "Hence the event ID": under the no-collision assumption on the two hashed byte strings, different
+hashed bytes give different event IDs. -/
+theorem covered_change_changes_event_id (sha256 : List Nat → List Nat)
+    (hbytes : ∀ m, ∀ b ∈ sha256 m, b < 256) (a : Alphabet) (p p' : List Nat) (hpre : p ≠ p')
+    (hnc : sha256 p = sha256 p' → p = p') :
+    (36 :: b64 a (sha256 p)) ≠ 36 :: b64 a (sha256 p') :=
+  fun heq => hpre (hnc (event_id_injective a _ _ (hbytes p) (hbytes p') heq))
+
+/-- **The event ID ignores `unsigned` and `signatures` and survives redaction**: the redacted copy of
+an event has the event's ID, for every rules value and format. -/
+theorem event_id_invariant (sha256 : List Nat → List Nat) (r : Rules) (fmt : EventIdFormat)
+    (e e' o o' : Obj) (h : redact r e none = .ok e')
+    (hw : without o [bs "signatures", bs "unsigned"] = without o' [bs "signatures", bs "unsigned"]) :
+    eventId sha256 r fmt e' = eventId sha256 r fmt e ∧
+    eventId sha256 r fmt o = eventId sha256 r fmt o' := by
+  cases fmt <;>
+    simp only [eventId, reference_hash_redact_invariant sha256 r _ e e' h,
+      (hash_ignores_unsigned_signatures sha256 r _ o o' hw).2, and_self]
+
+/-- **Shape of a hash event ID**: for a 32-byte digest it is `$` followed by 43 characters of the
+alphabet; it contains no `:` (so it has no server part, unlike the IDs of room versions 1 and 2), and
+with the URL-safe alphabet (room version 4 onwards) none of `+ / =`. -/
+theorem event_id_shape (a : Alphabet) (x : List Nat) (hx : ∀ b ∈ x, b < 256) :
+    (x.length = 32 → (36 :: b64 a x).length = 44) ∧ (∀ c ∈ b64 a x, c ≠ 58 ∧ c ≠ 36) ∧
+    (a = .urlSafe → ∀ c ∈ b64 a x, c ≠ 43 ∧ c ≠ 47 ∧ c ≠ 61) := by
+  refine ⟨fun hl => by rw [List.length_cons, b64_length, hl], ?_, ?_⟩
+  · intro c hc
+    have hmem := b64_chars a x hx c hc
+    have : ∀ c ∈ alphabetChars a, c ≠ 58 ∧ c ≠ 36 := by cases a <;> decide
+    exact this c hmem
+  · rintro rfl
+    exact (url_safe_output x hx).1
 
 /-! ### Non-vacuity: the hypotheses above are satisfiable on a concrete event -/
 
@@ -402,6 +604,35 @@ example :
   intro h
   exact absurd h (by decide)
 
+/-- An invite created from a third-party invite whose `signed` member is the number `n` (example data). -/
+def exInvite (n : Int) : Obj :=
+  [(bs "content", .obj [(bs "membership", .str (bs "invite")),
+      (bs "third_party_invite", .obj [(bs "display_name", .str (bs "n")), (bs "signed", .int n)])]),
+   (bs "type", .str (bs "m.room.member"))]
+
+/-- `covered_tpi_signed_change_changes_reference_preimage` (and the `*_canonical` corollaries): the
+hypotheses hold on two canonical v11 invites that differ only in `third_party_invite.signed`; both
+redact; the hashed bytes differ. Under the version 10 rules the same two events have the *same*
+hashed bytes (`third_party_invite` is stripped), which is why the key is treated separately. -/
+example :
+    IsCanonical (.obj (exInvite 1)) ∧ IsCanonical (.obj (exInvite 2)) ∧
+    (∃ res res', redact (rulesOf 11) (exInvite 1) none = .ok res ∧ redact (rulesOf 11) (exInvite 2) none = .ok res') ∧
+    contentKept 11 (bs "m.room.member") (bs "third_party_invite") = true ∧
+    referencePreimage 11 (bs "m.room.member") (exInvite 1) ≠ referencePreimage 11 (bs "m.room.member") (exInvite 2) ∧
+    referencePreimage 10 (bs "m.room.member") (exInvite 1) = referencePreimage 10 (bs "m.room.member") (exInvite 2) :=
+  ⟨Props.C01.normalize_sorted (.obj (exInvite 1)) _ (by rfl), Props.C01.normalize_sorted (.obj (exInvite 2)) _ (by rfl),
+    ⟨_, _, rfl, rfl⟩, by decide, by decide, by decide⟩
+
+/-- `event_id_def` on the v4 message event above with a toy digest: the ID is `$` + URL-safe base64. -/
+example :
+    let e : Obj := [(bs "content", .obj [(bs "body", .str (bs "hi"))]), (bs "depth", .int 3),
+      (bs "sender", .str (bs "@a:b")), (bs "type", .str (bs "m.room.message"))]
+    eventId (fun m => [251, 255, m.length % 256]) (rulesOf 4) (specFormat 4) e = .ok (some (bs "$-_9A")) ∧
+    eventId (fun m => [251, 255, m.length % 256]) (rulesOf 3) (specFormat 3) e = .ok (some (bs "$+/9A")) ∧
+    eventId (fun m => [251, 255, m.length % 256]) (rulesOf 2) (specFormat 2) e = .ok none := by
+  dsimp only
+  exact ⟨rfl, rfl, rfl⟩
+
 #print axioms format_table_eq_spec
 #print axioms redaction_table_eq_spec
 #print axioms alphabet_by_version
@@ -421,6 +652,18 @@ example :
 #print axioms covered_content_change_changes_reference_preimage
 #print axioms covered_change_changes_content_hash
 #print axioms covered_change_changes_reference_hash
+#print axioms encInj_of_canonical
+#print axioms covered_change_changes_preimage_canonical
+#print axioms encInj_of_redacted
+#print axioms covered_change_changes_reference_preimage_canonical
+#print axioms covered_content_change_changes_reference_preimage_canonical
+#print axioms covered_tpi_signed_change_changes_reference_preimage
+#print axioms event_id_of_reference_hash
+#print axioms event_id_def
+#print axioms event_id_injective
+#print axioms covered_change_changes_event_id
+#print axioms event_id_invariant
+#print axioms event_id_shape
 #print axioms b64_url_roundtrip
 #print axioms alphabet_tables
 #print axioms alphabets_differ_only_in_62_63
